@@ -74,7 +74,7 @@ class Runtime:
                     raise (GeneratorExit if getattr(self_, "_base", False) else RuntimeError)("str() of this exception raises")
                 return self_._s
 
-            attrs = {"__module__": "vmod", "__str__": __str__, "_s": "unset"}
+            attrs = {"__module__": None if c.get("oddmod") else "vmod", "__str__": __str__, "_s": "unset"}
             if c.get("falsy"):
                 # an exception object that is falsy (e.g. an aggregate of zero errors): `if exception:` is not `is not None`
                 attrs["__len__"] = lambda self_: 0
@@ -183,6 +183,7 @@ class Runtime:
                 raise self.make_exc(self.ser_fail[k])
             return SerOut(sid, k, v)
 
+        ser._harness_sid = sid
         return ser
 
     def dest(self, d):
@@ -326,7 +327,10 @@ def run_case(case):
         if snap is not None:
             rt.caller_dicts.append((dictionary, snap, snapshot))
         declared = sorted(k for k in getattr(serializer, "fields", {})) if serializer is not None else None
-        rt.writes.append((rt.canon_msg(dictionary), serializer is not None, declared))
+        # the declared fields whose serializer is one of the program's (tagging) serializers: they must arrive serialized
+        tagging = sorted(k for k, f in getattr(serializer, "fields", {}).items()
+                         if hasattr(getattr(f, "_serializer", None), "_harness_sid")) if serializer is not None else None
+        rt.writes.append((rt.canon_msg(dictionary), serializer is not None, declared, tagging))
         try:
             return orig_write(self, dictionary, serializer)
         finally:
@@ -411,7 +415,12 @@ def placement_check(rt, parent, n0, what, task=False):
                  "%s with no current action (or start_task) did not start a new tree: uuid %s level %s" % (what, u, lvl))
     else:
         pu, pl = parent
-        rt.check("placement", key == canon_key(pu) and isinstance(lvl, list) and len(lvl) >= len(pl) + 1 and lvl[:len(pl)] == pl,
+        # a message is a direct item of the current action (one more component); the start message of a new action is the first
+        # item of a direct child (two more components, the last one 1)
+        started = m.get("action_status") == "started"
+        direct = (isinstance(lvl, list) and lvl[:len(pl)] == pl and all(isinstance(x, int) and x >= 1 for x in lvl[len(pl):])
+                  and (len(lvl) == len(pl) + 2 and lvl[-1] == 1 if started else len(lvl) == len(pl) + 1))
+        rt.check("placement", key == canon_key(pu) and direct,
                  "%s inside action %s%s was placed at uuid %s level %s" % (what, pu, pl, u, lvl))
     rt.uuids.add(key)
 
